@@ -319,13 +319,23 @@ def norms (ops : JOps K) (st : JState K) : K × K :=
     let on := (List.range j).foldl (fun on i => on + ops.abs (st.a i j)) acc.2
     (dn, on)) ((0 : K), (0 : K))
 
-/-- `for m in range(maxsweeps)` with the `break`; `none` is the ZeroDivisionError of `onorm / dnorm` -/
-def jacobiLoop (ops : JOps K) : Nat → JState K → Option (JState K)
+/-- `for m in range(maxsweeps)` with the `break` as it was before fixes/C20_3: `if onorm / dnorm <= 1e-12`;
+    `none` is the ZeroDivisionError of `onorm / dnorm` when the diagonal is all zero (kept for the witness theorem) -/
+def jacobiLoopOld (ops : JOps K) : Nat → JState K → Option (JState K)
   | 0, st => some st
   | fuel + 1, st =>
     let n := norms ops st
     if ops.isZero n.1 then none
     else if ops.le (n.2 / n.1) ops.eps then some st
+    else jacobiLoopOld ops fuel (sweep ops st)
+
+/-- `for m in range(maxsweeps)` with the `break` (repaired, fixes/C20_3): `if onorm <= 1e-12 * dnorm` — no division,
+    so no exception; always `some` (the `Option` is kept for the callers' shape) -/
+def jacobiLoop (ops : JOps K) : Nat → JState K → Option (JState K)
+  | 0, st => some st
+  | fuel + 1, st =>
+    let n := norms ops st
+    if ops.le n.2 (ops.eps * n.1) then some st
     else jacobiLoop ops fuel (sweep ops st)
 
 /-- the selection sort of the eigenvalues with the column swaps of `eigenvect` (quatfit.py:139-152) -/
@@ -358,6 +368,12 @@ def jacobi (ops : JOps K) (n : S4 K) (maxsweeps : Nat) : Option (JState K) :=
   let a := matOfS4 n
   let st : JState K := { a := a, v := ⟨fun r c => if r = c then 1 else 0⟩, d := ⟨fun j => a j j⟩ }
   (jacobiLoop ops maxsweeps st).map (sortEig ops)
+
+/-- `jacobi` before fixes/C20_3 -/
+def jacobiOld (ops : JOps K) (n : S4 K) (maxsweeps : Nat) : Option (JState K) :=
+  let a := matOfS4 n
+  let st : JState K := { a := a, v := ⟨fun r c => if r = c then 1 else 0⟩, d := ⟨fun j => a j j⟩ }
+  (jacobiLoopOld ops maxsweeps st).map (sortEig ops)
 
 /-- `qtrfit`: quaternion = last column of the sorted eigenvectors, rotation = `transpose(q2mat(q))` -/
 def qtrfit (ops : JOps K) (src tgt : List (P3 K)) (maxsweeps : Nat) : Option (Q4 K × M3 K) :=
